@@ -246,4 +246,20 @@ def generate(tier="quick"):
             if base in ci.mro and ci.resolve("get_sql") and ci.resolve("get_sql")[0] == "func":
                 items.append(ci.qual)
     obs = list(obs) + parallel(check_text, sorted(set(items)))
+    # embed/convention: "its stand-alone rendering in the same dialect" - a statement passes the dialect conventions of
+    # the incoming context (dialect, quote characters, as_keyword, ...) unchanged to every nested render, so that an
+    # embedded sub-query sees what it would see stand-alone.  These are the ctx/dialect obligations of C08 for the
+    # get_sql functions of the statement builders (a statement that turns on `as_keyword` for its own alias must not
+    # pass it on to its sub-queries).
+    from . import c08
+    from .render import render_targets
+    stm = set(items)
+    tg = [x for x in render_targets(r) if x[0].endswith(".get_sql") and any(c in stm for c in x[2])]
+    for ob in parallel(c08._dispatch, tg):
+        if isinstance(ob, tuple):
+            obs.append(ob)
+        elif ob.kind == "ctx/dialect":
+            ob.prop, ob.kind = PROP, "embed/convention"
+            ob.key = ob.key.replace("|ctx/dialect|", "|embed/convention|")
+            obs.append(ob)
     return obs, meta
